@@ -88,8 +88,13 @@ type solverSpec struct {
 	hdr  string
 }
 
+var solverSeed int
+
 func solvers(timeoutS int) []solverSpec {
 	z3opts := "(set-option :smt.mbqi false)\n(set-option :smt.auto_config false)\n(set-option :auto_config false)\n"
+	if solverSeed != 0 {
+		z3opts += fmt.Sprintf("(set-option :smt.random_seed %d)\n(set-option :sat.random_seed %d)\n", solverSeed%100000, solverSeed%100000)
+	}
 	return []solverSpec{
 		{"z3-new", []string{"z3-new", "-in", fmt.Sprintf("-T:%d", timeoutS)}, z3opts},
 		{"z3", []string{"z3", "-in", fmt.Sprintf("-T:%d", timeoutS)}, z3opts},
@@ -129,7 +134,7 @@ func (x *Exec) queryText(o *Oblig, prelude string) string {
 		sb.WriteString(l)
 		sb.WriteString("\n")
 	}
-	if o.Kind == "goal" {
+	if o.Kind == "goal" || o.Kind == "canary" {
 		sb.WriteString("(assert (not " + o.Goal + "))\n")
 	}
 	sb.WriteString("(check-sat)\n")
@@ -141,10 +146,12 @@ type solveCfg struct {
 	jobs     int
 	all      bool   // run every solver (thorough) and cross-check
 	dumpDir  string // write failed queries here
+	seed     int
 }
 
 func (x *Exec) solveAll(obls []*Oblig, cfg solveCfg) {
 	prelude := loadPrelude()
+	solverSeed = cfg.seed
 	var wg sync.WaitGroup
 	ch := make(chan *Oblig)
 	for w := 0; w < cfg.jobs; w++ {
@@ -165,6 +172,17 @@ func (x *Exec) solveAll(obls []*Oblig, cfg solveCfg) {
 
 func (x *Exec) solveOne(o *Oblig, prelude string, cfg solveCfg) {
 	q := x.queryText(o, prelude)
+	if o.Kind == "canary" {
+		// must NOT be provable: one quick attempt with the first solver
+		r, _, ms := runSolver(solvers(3)[0], q, 3)
+		o.Ms = ms
+		if r == "unsat" {
+			o.Status = "proved"
+		} else {
+			o.Status = "failed"
+		}
+		return
+	}
 	if o.Kind == "goal" && (o.Goal == "true") {
 		o.Status, o.Backend = "proved", "trivial"
 		return
